@@ -11,8 +11,8 @@ open Hts.Model.Index Hts.Model.Csi
 def normCBin (version : Nat) (b : CBin) : CBin := { b with records := if version = 2 then b.records else 0 }
 
 structure CRefBounds (version binLimit : Nat) (r : CRef) : Prop where
-  nb : r.bins.length + 1 ≤ binLimit
-  nb31 : r.bins.length + 1 < 2147483648
+  nb : r.bins.length + (if r.stats.isSome then 1 else 0) ≤ binLimit + 1
+  nb31 : r.bins.length + (if r.stats.isSome then 1 else 0) < 2147483648
   bins : ∀ b, b ∈ r.bins → b.bin < 4294967296 ∧ b.bin ≠ binLimit + 1 ∧ OffOK b.left ∧
     b.records < 18446744073709551616 ∧ b.chunks.length < 2147483648 ∧ ∀ c, c ∈ b.chunks → OffOK c.b ∧ OffOK c.e
   stats : ∀ s, r.stats = some s →
@@ -26,7 +26,6 @@ structure CRefSorted (r : CRef) : Prop where
 structure CWF (i : CIndex) : Prop where
   version : i.version = 1 ∨ i.version = 2
   minShift : i.minShift < 2147483648
-  depth : i.depth ≤ 9
   geom : i.minShift + 3 * i.depth ≤ 62
   aux : i.aux.length < 2147483648
   nrefs : i.refs.length < 2147483648
@@ -46,10 +45,10 @@ theorem csortRef_sorted (r : CRef) : CRefSorted (Csi.sortRef r) :=
 
 theorem csortRef_bounds (v bl : Nat) (r : CRef) (h : CRefBounds v bl r) : CRefBounds v bl (Csi.sortRef r) :=
   { nb := by
-      show ((r.bins.mergeSort leCBin).map _).length + 1 ≤ _
+      show ((r.bins.mergeSort leCBin).map _).length + (if r.stats.isSome then 1 else 0) ≤ _
       rw [List.length_map, (List.mergeSort_perm r.bins leCBin).length_eq]; exact h.nb
     nb31 := by
-      show ((r.bins.mergeSort leCBin).map _).length + 1 < _
+      show ((r.bins.mergeSort leCBin).map _).length + (if r.stats.isSome then 1 else 0) < _
       rw [List.length_map, (List.mergeSort_perm r.bins leCBin).length_eq]; exact h.nb31
     bins := by
       intro b hb
@@ -185,6 +184,7 @@ theorem rCBins_wCBins (version binLimit : Nat) (hv : version = 1 ∨ version = 2
   unfold rCBins wCBins
   cases hst : r.stats with
   | some s =>
+    simp only [hst, Option.isSome_some, if_true] at hnb hnb31
     simp only
     have : i32 ((r.bins.length : Int) + 1) ++ r.bins.flatMap (wCBin version) ++ wCStats version (binLimit + 1) s ++ rest =
         i32 ((r.bins.length : Int) + 1) ++ (r.bins.flatMap (wCBin version) ++ (wCStats version (binLimit + 1) s ++ rest)) := by
@@ -192,14 +192,15 @@ theorem rCBins_wCBins (version binLimit : Nat) (hv : version = 1 ∨ version = 2
     rw [this, rI32_i32 _ (by omega) (by omega)]
     have h0 : ¬ ((r.bins.length : Int) + 1 = 0) := by omega
     have h1 : ¬ ((r.bins.length : Int) + 1 < 0) := by omega
-    have h2 : ¬ ((((r.bins.length : Int) + 1) % 4294967296).toNat > binLimit) := by omega
-    simp only [h0, h1, h2, if_false]
     have hn : ((r.bins.length : Int) + 1).toNat = r.bins.length + 1 := by omega
-    rw [hn, rCBinLoop_bins version (binLimit + 1) hv r.bins 1 [] none _ hbins]
+    have h2 : ¬ (r.bins.length + 1 > binLimit + 1) := by omega
+    simp only [h0, h1, hn, h2, if_false]
+    rw [rCBinLoop_bins version (binLimit + 1) hv r.bins 1 [] none _ hbins]
     rw [rCBinLoop_stats version (binLimit + 1) hv hbl s (hb.stats s hst)]
     simp only [List.append_nil, List.reverse_reverse]
     rw [List.mergeSort_of_pairwise (normCBin_sorted version r.bins hs.bins)]
   | none =>
+    simp only [hst, Option.isSome_none, Bool.false_eq_true, if_false, Nat.add_zero] at hnb hnb31
     simp only
     have : i32 (r.bins.length : Int) ++ r.bins.flatMap (wCBin version) ++ rest =
         i32 (r.bins.length : Int) ++ (r.bins.flatMap (wCBin version) ++ rest) := by simp [List.append_assoc]
@@ -210,18 +211,17 @@ theorem rCBins_wCBins (version binLimit : Nat) (hv : version = 1 ∨ version = 2
       rw [← hbl']
       have h0 : ¬ ((r.bins.length : Int) = 0) := by rw [hbl']; simp; omega
       have h1 : ¬ ((r.bins.length : Int) < 0) := by omega
-      have h2 : ¬ (((r.bins.length : Int) % 4294967296).toNat > binLimit) := by omega
-      simp only [h0, h1, h2, if_false, Int.toNat_natCast]
+      have h2 : ¬ (r.bins.length > binLimit + 1) := by omega
+      simp only [h0, h1, Int.toNat_natCast, h2, if_false]
       have := rCBinLoop_bins version (binLimit + 1) hv r.bins 0 [] none rest hbins
       simp only [Nat.add_zero] at this
       rw [this]
       simp only [rCBinLoop, List.append_nil, List.reverse_reverse]
       rw [List.mergeSort_of_pairwise (normCBin_sorted version r.bins hs.bins)]
 
-theorem csiBinLimit_lt (d : Nat) (h : d ≤ 9) : csiBinLimit d + 1 < 4294967296 := by
-  unfold csiBinLimit
-  have : d = 0 ∨ d = 1 ∨ d = 2 ∨ d = 3 ∨ d = 4 ∨ d = 5 ∨ d = 6 ∨ d = 7 ∨ d = 8 ∨ d = 9 := by omega
-  rcases this with h | h | h | h | h | h | h | h | h | h <;> subst h <;> decide
+theorem csiBinLimit_lt (d : Nat) : csiBinLimit d + 1 < 4294967296 := by
+  unfold csiBinLimit Hts.Model.Coord.csiT0
+  omega
 
 theorem rAux_w (aux rest : Bytes) (h : aux.length < 2147483648) :
     rAux (aux.length : Int) (aux ++ rest) = .ok (aux, rest) := by
@@ -261,7 +261,7 @@ theorem readCsi_writeCsi (i : CIndex) (h : CWF i) : readCsi (writeCsi i) = .ok (
   have hlen : (Csi.sort i).refs.length = i.refs.length := by
     unfold Csi.sort; split <;> simp
   have hrefs := csort_refs_ok i h
-  have hblt := csiBinLimit_lt i.depth h.depth
+  have hblt := csiBinLimit_lt i.depth
   have hv8 : (UInt8.ofNat i.version).toNat = i.version := by
     rcases h.version with hv | hv <;> rw [hv] <;> decide
   simp only [List.append_assoc]
@@ -273,7 +273,7 @@ theorem readCsi_writeCsi (i : CIndex) (h : CWF i) : readCsi (writeCsi i) = .ok (
     rcases h.version with hv | hv <;> simp [hv]
   simp only [hvv, if_false]
   have hms := h.minShift
-  have hd := h.depth
+  have hg0 := h.geom
   rw [rI32_i32 _ (by omega) (by omega)]
   simp only [show ¬ ((i.minShift : Int) < 0) by omega, if_false]
   rw [rI32_i32 _ (by omega) (by omega)]
